@@ -68,6 +68,26 @@ class CheckContext:
         return f
 
     def interp(self, **kw):
+        # a contract is keyed by the qualified name of the function it stands for; if that function has been moved to another module of the package
+        # (and imported back under the old name) the contract follows it to where it is defined now
+        if kw.get("contracts"):
+            cs = dict(kw["contracts"])
+            for key, con in list(cs.items()):
+                parts = key.split(".")
+                for cut in range(len(parts) - 1, 0, -1):
+                    modname, name = ".".join(parts[:cut]), ".".join(parts[cut:])
+                    try:
+                        source.module_path(modname)
+                    except FileNotFoundError:
+                        continue
+                    try:
+                        q = source.get_function(modname, name).qualname
+                        if q != key:
+                            cs.setdefault(q, con)
+                    except (KeyError, FileNotFoundError):
+                        pass
+                    break
+            kw["contracts"] = cs
         I = Interp(**kw)
         self._interps = getattr(self, "_interps", [])
         self._interps.append(I)
